@@ -44,6 +44,7 @@ def check(ctx):
     ctx.guard("C06-C", widths.rule_min_size_matches_shrink, "C06-C")
     # a cell's allocated width is the sum of the columns it spans plus the separators between them (shared with C02-F)
     ctx.guard("C06-B", widths.rule_stacked_cells_full_width, "C06-B")
+    ctx.guard("C06-C", widths.rule_estimate_merge, "C06-C")
 
 
 def _forms(b, l):
